@@ -1,7 +1,7 @@
 (* C31: buildSample, the purge loop, Push / Pop / Flush and histories. *)
 From Coq Require Import List ZArith NArith PArith Bool Lia ZifyBool ZifyNat ZifyN.
 Import ListNotations.
-From Verif Require Import Common.Base Model.SampleBuilder
+From Verif Require Import Common.Base Model.SampleBuilder Model.SampleBuilderSpec
   Proofs.SampleBuilderArith Proofs.SampleBuilderIter Proofs.SampleBuilderMap Proofs.SampleBuilder
   Proofs.SampleBuilderScan.
 Open Scope N_scope.
@@ -227,21 +227,7 @@ Section Build.
   Qed.
 
   (* ---------- histories ---------- *)
-  Definition pushed_of (ops : list op) : list packet :=
-    flat_map (fun o => match o with OPush pk => [pk] | _ => [] end) ops.
-
-  (* the property's safety clause for one sample, against the packets pushed *)
-  Definition sample_wf (pushed : list packet) (x : sample) : Prop :=
-    exists h hp rest ds,
-      h < 65536 /\
-      s_pkts x = hp :: rest /\
-      Forall2 (fun k p => In p pushed /\ p_seq p = k) (keys_from h (List.length (hp :: rest))) (hp :: rest) /\
-      is_head (p_payload hp) = true /\
-      map (fun p => unmarshal (p_payload p)) (hp :: rest) = map Some ds /\
-      s_data x = concat ds /\
-      s_ts x = p_ts hp /\
-      (forall p, In p (removelast (hp :: rest)) -> p_ts p = p_ts hp /\ ptail p = false) /\
-      (ptail (last rest hp) = false -> p_ts (last rest hp) = p_ts hp).
+  Notation sample_wf := (sample_wf is_head is_tail unmarshal).
 
   Lemma sample_wf_incl : forall P P' x, incl P P' -> sample_wf P x -> sample_wf P' x.
   Proof.
